@@ -1,5 +1,22 @@
 """C21 — interface connection decisions follow the declared policy rules (DESIGN.md §2 C21)."""
 
+# the generator pools of harness/overlay/zzverif/c21/gen.go; the driver prints these strings as identifiers
+_POOL = ["ia", "ib", "ic", "n1", "n2", "k1", "k2", "k3", "x", "y", "true", "5", "-3", "pub-one", "pub-two", "canonical",
+         "snapidsnapidsnapidsnapidsnapid01", "snapidsnapidsnapidsnapidsnapid02", "snapidsnapidsnapidsnapidsnapid03",
+         "core", "kernel", "gadget", "app", "os", "snapd", "base", "ubuntu", "debian", "fedora", "store1", "store2", "store3",
+         "brand1", "brand2", "model1", "model2", "", "ubuntu-core", "substore", "k1.k1", "k2.k3", ".k1.", "k9", "$INTERFACE",
+         "$OTHER", "$PLUG_PUBLISHER_ID", "$SLOT_PUBLISHER_ID", "$UNKNOWN", "brand1/model1", "brand1/model2", "brand2/model1",
+         "brand2/model2"]
+
+
+def _ident(x):
+    for a, b in (("-", "_"), ("$", "D_"), (".", "_dot_"), ("/", "_sl_")):
+        x = x.replace(a, b)
+    return "s_" + x
+
+
+_PRELUDE = "\n".join('Definition %s : bytes := bs "%s".' % (_ident(x), x) for x in _POOL)
+
 
 def classify(case):
     return None
@@ -11,10 +28,10 @@ SPEC = dict(
     coq_targets=["props/C21.vo"],
     drivers=[
         dict(name="policy", kind="main", pkg="./zzverif/c21",
-             n=dict(quick=700, thorough=20000),
+             n=dict(quick=400, thorough=12000),
              timeout=dict(quick=300, thorough=1800),
              ev=dict(requires=["V.lib.Bytes", "V.models.Policy"], case_type="Policy.case",
-                     mismatch="Policy.mismatch", monitor="Policy.monitor_fail")),
+                     mismatch="Policy.mismatch", monitor="Policy.monitor_fail", prelude=_PRELUDE)),
     ],
     classify=classify,
     rule="",
